@@ -844,7 +844,7 @@ func reportLoadFailure(prop, tier string, err error, start time.Time) int {
 // packagesFor lists the packages to load for a property.
 func packagesFor(prop string) []string {
 	switch prop {
-	case "C01", "C02", "C05", "C06", "C10", "C18":
+	case "C01", "C02", "C05", "C06", "C07", "C10", "C16", "C18":
 		return []string{"./src/...", "./cmd/kddp/..."}
 	}
 	return []string{"./src/ast/...", "./src/ddperror/...", "./src/ddppath/...", "./src/ddptypes/...", "./src/parser/...", "./src/scanner/...", "./src/token/..."}
